@@ -133,12 +133,20 @@ def anchored_files(pid):
     return []
 
 
-def report(pid, lines, sampled_runs):
-    """evidence block: per anchored file, function lines reached / not reached by the sampled runs"""
+def report(pid, lines, sampled_runs, extra_dirs=()):
+    """evidence block: per anchored file (plus every .py file under extra_dirs, relative to okdmr/dmrlib), function statements reached /
+    not reached by the sampled runs"""
     root = os.path.join(os.path.realpath(core.repo_root()), "okdmr", "dmrlib")
     files = {}
     tot_e = tot_r = 0
-    for rel in anchored_files(pid):
+    rels = list(anchored_files(pid))
+    for d in extra_dirs:
+        for dp, _, fns in sorted(os.walk(os.path.join(root, d))):
+            for fn in sorted(fns):
+                rel = os.path.relpath(os.path.join(dp, fn), root)
+                if fn.endswith(".py") and rel not in rels:
+                    rels.append(rel)
+    for rel in rels:
         p = os.path.join(root, rel)
         if not os.path.exists(p):
             continue
